@@ -76,6 +76,11 @@ func condMembers(d *declInfo, cond ast.Expr, positive bool, lookups map[types.Ob
 			}
 			return nil
 		}
+	case *ast.IndexExpr:
+		// a map[K]bool used as a set: `if seen[k]`
+		if ix := boolSetLookup(d, e); ix != nil {
+			return []memberFact{{m: baseObj(d, ix.X), mexpr: types.ExprString(ix.X), key: types.ExprString(ix.Index), present: positive, via: via}}
+		}
 	case *ast.Ident:
 		if ix, ok := lookups[objOf(d.pkg, e)]; ok {
 			return []memberFact{{m: baseObj(d, ix.X), mexpr: types.ExprString(ix.X), key: types.ExprString(ix.Index), present: positive, via: via}}
